@@ -157,7 +157,7 @@ def c16(tier, seed):
     rep.add_tlc(st)
     rep.cov["model_runs"] = [dict(module="NodeConfig", states=st["distinct"], transitions=st["generated"], wall_s=round(r["wall"], 1))]
     # 2. behaviours from TLC's simulator replayed on real nodes
-    states, r2 = _nodecfg_behaviours(seed, 150 if quick else 3000, 8, 7)
+    states, r2 = _nodecfg_behaviours(seed, 150 if quick else 500, 8, 7)   # walks; ~1 500 printed states each
     rep.add_tlc(r2["stats"])
     # maximal histories and the abstract state after each prefix
     # a printed state is either on a walk (it has printed successors) or a sibling that the walk did not continue with; every one of them is
